@@ -4,7 +4,8 @@
 //!                     x {no extra, one extra at every position, two extras at every position pair}
 //!                     + one field retyped + (renamed structs) the Rust name offered instead of the database name
 //!   serialization   : x value rows x every null pattern of the Option fields
-//!   deserialization : x value rows x every null pattern of the database cells, + (UDT) every truncation point
+//!   deserialization : x value rows x null patterns of the database cells (thorough: every pattern of the first 8
+//!                     cells; quick: <=2 nulls or all null), + (UDT) every truncation point
 //! Oracle: cqlref::binder (written from the macro documentation): verdict MustAccept / MustReject /
 //! Either / Unspecified, expected cell per database position, expected value per struct field.
 //! Round trip: real serializer output fed to the real deserializer of the same struct.
@@ -139,6 +140,13 @@ fn shapes(e: &Entry, b: &ShapeBounds) -> Vec<Vec<DbField>> {
         }
     }
     let x1 = extras1[0].clone();
+    // names are case-sensitive: the first field's name in the other case must not be bound
+    if let Some(f0) = fields.first() {
+        let flipped: String = f0.name.chars().map(|c| if c.is_lowercase() { c.to_ascii_uppercase() } else { c.to_ascii_lowercase() }).collect();
+        if flipped != f0.name && !m.leaves.iter().any(|l| l.db_name == flipped || l.rust_name == flipped) {
+            extras1.push(DbField { name: flipped, kind: f0.kind });
+        }
+    }
     // a second database field carrying the name of the first declared field (documentation silent: no panic)
     if let Some(f0) = fields.first() {
         extras1.push(f0.clone());
@@ -443,6 +451,8 @@ struct Bounds {
     null_pattern_rows: usize,
     /// de: null patterns range over at most this many leading database positions (the rest stay non-null)
     de_null_bits: usize,
+    /// de: null patterns with at most this many nulls (plus the all-null pattern)
+    de_max_nulls: usize,
 }
 
 /// Everything for one (struct, op, database shape).
@@ -493,6 +503,9 @@ fn shape_block(r: &Ctx, e: &Entry, op: Op, db: &[DbField], b: &Bounds) {
                     continue;
                 }
                 if row >= b.null_pattern_rows && mask != 0 {
+                    continue;
+                }
+                if mask.count_ones() as usize > b.de_max_nulls && mask != n_masks - 1 {
                     continue;
                 }
                 let mut cells = base.clone();
@@ -578,26 +591,31 @@ fn main() {
     let jobs = r.args.jobs;
     let only = r.args.extra_value("--struct").map(|s| s.to_string());
 
+    let t_gen = std::time::Instant::now();
     // work list: (entry index, op, shape)
     let mut work: Vec<(usize, Op, Vec<DbField>)> = Vec::new();
-    let mut bounds_by_entry: Vec<Bounds> = Vec::new();
-    for (ei, e) in fam.iter().enumerate() {
+    let bounds_by_entry: Vec<Bounds> = fam
+        .iter()
+        .map(|e| {
+            let n = e.model.leaves.iter().filter(|l| !l.skip).count();
+            Bounds {
+                shape: ShapeBounds {
+                    one_extra_max_missing: n,
+                    two_extras_max_missing: if thorough { n } else if n <= 4 { n } else { 1 },
+                    retype_all_perms: thorough || n <= 4,
+                },
+                value_rows: if thorough { 4 } else { 2 },
+                null_pattern_rows: if thorough { 4 } else { 1 },
+                de_null_bits: if thorough { 8 } else { 6 },
+                de_max_nulls: if thorough { 8 } else { 2 },
+            }
+        })
+        .collect();
+    let selected: Vec<usize> = (0..fam.len()).filter(|i| only.as_deref().is_none_or(|o| o == fam[*i].name)).collect();
+    let shapes_by_entry: Vec<Vec<Vec<DbField>>> = vcore::par::map(jobs, selected.clone(), |&i| shapes(&fam[i], &bounds_by_entry[i].shape));
+    for (&ei, sh) in selected.iter().zip(shapes_by_entry) {
+        let e = &fam[ei];
         let n = e.model.leaves.iter().filter(|l| !l.skip).count();
-        let b = Bounds {
-            shape: ShapeBounds {
-                one_extra_max_missing: n,
-                two_extras_max_missing: if thorough { n } else if n <= 4 { n } else { 1 },
-                retype_all_perms: thorough || n <= 4,
-            },
-            value_rows: if thorough { 4 } else { 2 },
-            null_pattern_rows: if thorough { 4 } else { 1 },
-            de_null_bits: if thorough { 8 } else { 6 },
-        };
-        if only.as_deref().is_some_and(|o| o != e.name) {
-            bounds_by_entry.push(b);
-            continue;
-        }
-        let sh = shapes(e, &b.shape);
         r.counters.add("database_shapes", (sh.len() * ops_of(e).len()) as u64);
         r.counters.max("max_fields_permuted", n as u64);
         for op in ops_of(e) {
@@ -605,8 +623,8 @@ fn main() {
                 work.push((ei, op, s.clone()));
             }
         }
-        bounds_by_entry.push(b);
     }
+    r.note("shape_generation_s", json!(t_gen.elapsed().as_secs_f64()));
     r.counters.add("structs", fam.len() as u64);
     let r_ref = &r;
     let fam_ref = &fam;
@@ -626,7 +644,7 @@ fn main() {
     if outcome_classes < 8 {
         vcore::machinery_error("C16 harness collided on too few outcome classes");
     }
-    r.set_rule("E-ENUM. Per family struct and derive: every subset of its fields missing x every permutation of the rest x {0, 1 extra at every position, 2 extras at every position pair (quick, >4 fields: only with <=1 field missing)} + one field retyped + Rust-name-instead-of-rename / name-of-a-skipped-field / a repeated name as extra; serialization x 2|4 value rows x every null pattern of Option fields (quick: null patterns with the first value row) (+ round trip through the struct's own deserializer); deserialization x 2|4 value rows x every null pattern of database cells (first 6|8 positions) + every UDT truncation point. Oracle cqlref::binder from the attribute documentation. distinct_nontrivial = cases whose database list differs from the declared field list.");
+    r.set_rule("E-ENUM. Per family struct and derive: every subset of its fields missing x every permutation of the rest x {0, 1 extra at every position, 2 extras at every position pair (quick, >4 fields: only with <=1 field missing)} + one field retyped + Rust-name-instead-of-rename / name-of-a-skipped-field / a repeated name as extra; serialization x 2|4 value rows x every null pattern of Option fields (quick: null patterns with the first value row) (+ round trip through the struct's own deserializer); deserialization x 2|4 value rows x null patterns of database cells (quick: <=2 nulls or all null, first 6 positions; thorough: every pattern of the first 8 positions) + every UDT truncation point. Oracle cqlref::binder from the attribute documentation. distinct_nontrivial = cases whose database list differs from the declared field list.");
     r.set_exhaustive(true);
     r.sample(json!({"struct": fam[0].source, "op": "ser-value", "db": [["c","boolean"],["a","int"],["b","text"]], "expected": "cells emitted at database positions c,a,b; read back by name"}));
     if let Some(e) = fam.iter().find(|e| e.name == "V12") {
